@@ -40,6 +40,8 @@ def plan(tier, seed):
         specs.append({"family": "keywords", "dialects": names[s:s + 5], "seed": seed, "n": 5, "unicode": tier != "quick"})
     for s in range(0, 80, 5):
         specs.append({"family": "foreign", "dialects": names[s:s + 5], "seed": seed, "n": 5})
+    for s in range(0, 80, 10):
+        specs.append({"family": "reused", "dialects": names[s:s + 10], "seed": seed, "n": 10})
     specs.append({"family": "headers", "seed": seed, "n": 1})
     specs += shards("header_spellings", 3000 if tier == "quick" else 100000, 500 if tier == "quick" else 5000, seed)
     specs.append({"family": "table", "seed": seed, "n": 1})
@@ -305,6 +307,47 @@ def run_header_spellings(spec_, M):
                                        "line": miss, "status": o2.status, "errors": o2.err_messages()[:2]}, {"kind": "text", "text": text2, "default": "en"})
 
 
+def run_reused(spec_, M):
+    """One TokenMatcher (default d0) and one Parser reused: a document that switches to dialect d by header, then a
+    header-less document that must be read in d0 again (title keywords, every step keyword category, keyword types)."""
+    m = dialects.master()
+    for d0 in ("en", "fr"):
+        D0 = m[d0]
+        matcher = TokenMatcher(d0)
+        parser = Parser()
+        probe_lines = [D0["feature"][0] + ": f", "  " + D0["background"][0] + ":", "    " + D0["given"][-1] + "g",
+                       "  " + D0["scenarioOutline"][0] + ": s"]
+        want_steps = []
+        for role in dialects.STEP_ROLES:
+            kw = D0[role][-1]
+            line = kw + "t"
+            probe_lines.append("    " + line)
+            ek, kt = dialects.expected_step(D0, line)
+            want_steps.append({"keyword": ek, "keywordType": kt, "text": line[len(ek):].strip()})
+        probe_lines += ["    " + D0["examples"][0] + ":", "      | a |"]
+        probe = "\n".join(probe_lines) + "\n"
+        for d in spec_["dialects"]:
+            D = m[d]
+            switch = "# language: %s\n%s: x\n  %s: y\n    %sz\n" % (d, D["feature"][0], D["scenario"][0], dialects.step_keywords(D)[-1][0])
+            for text, lang in ((switch, d), (probe, d0)):
+                M.count("keyword_cases")
+                M.count("parses_on_reused_matcher")
+                M.case(h64(["reused", d0, d, text]))
+                o = observe.parse_observed(text, parser=parser, matcher=matcher)
+                case = {"kind": "reused", "dialects": spec_["dialects"], "d0": d0, "d": d}
+                if o.status != "ok" or o.ast["feature"].get("language") != lang:
+                    M.violation("C05.default", {"what": "reused matcher: document not read in the dialect in force (header dialect, then the configured default again)",
+                                                "default": d0, "previous_header": d, "expected_language": lang, "status": o.status,
+                                                "errors": o.err_messages()[:2], "language": o.ast["feature"].get("language") if o.status == "ok" else None}, case)
+                    continue
+                if text is probe:
+                    sc = [c["scenario"] for c in o.ast["feature"]["children"] if "scenario" in c]
+                    got = [{k: s_.get(k) for k in ("keyword", "keywordType", "text")} for s_ in (sc[0]["steps"] if sc else [])]
+                    if got != want_steps:
+                        M.violation("C05.default", {"what": "reused matcher: steps of a header-less document are not read with the configured default dialect's keywords",
+                                                    "default": d0, "previous_header": d, "got": got[:3], "want": want_steps[:3]}, case)
+
+
 def run_table(M):
     M.count("table_comparisons")
     M.case("table")
@@ -331,6 +374,8 @@ def run_shard(spec, M):
         run_keywords(spec, M)
     elif f == "foreign":
         run_foreign(spec, M)
+    elif f == "reused":
+        run_reused(spec, M)
     elif f == "headers":
         run_headers(M)
     elif f == "header_spellings":
@@ -353,6 +398,8 @@ def replay(case, M):
         run_headers(M)
     elif k == "reuse":
         run_headers(M)
+    elif k == "reused":
+        run_reused({"dialects": case["dialects"]}, M)
     else:
         run_table(M)
 
